@@ -13,7 +13,7 @@ import linecache
 import random
 import sys
 
-from check_build import SRC, Injected, Scenario, cfg_error
+from check_build import SRC, Injected, Scenario, cfg_error, held_dispatch
 from common import run_driver, use_repo
 
 use_repo()
@@ -28,7 +28,7 @@ def observe(ov):
     table = []
     if hasattr(ov, "map"):
         table = [ident[h.__code__.co_filename] for h in ov.map.priorities]
-    gen = hasattr(ov, "dispatch") and ov.dispatch.__code__.co_filename.startswith("<ovld:")
+    gen = hasattr(ov, "dispatch") and held_dispatch(ov).__code__.co_filename.startswith("<ovld:")
     return {"defns": defns, "compiled": bool(ov._compiled), "entry": gen, "table": table}
 
 
@@ -141,7 +141,7 @@ def run_real(sc, rng, k, has_bad, fixed_ops=None):
                     ov.unregister(sc.fn_of("bad" if op[1] == 99 else op[1]))
                     res = ("done",)
                 else:
-                    target = ov if op[1] == "obj" else ov.dispatch
+                    target = ov if op[1] == "obj" else held_dispatch(ov)
                     r = target(probes[op[4]])
                     res = ("ok", repr(r)[:60])
             except Injected:
